@@ -34,6 +34,7 @@ type Agg struct {
 	Scenarios  []map[string]any
 	Samples    []any
 	Nondet     []string
+	Tags       map[string]int
 }
 
 // NewAgg starts an aggregate.
@@ -56,6 +57,12 @@ func (a *Agg) Add(res *vsync.Result, keyFn func(v *vsync.Violation) string) {
 	}
 	if !res.Exhaustive {
 		a.Exhaustive = false
+	}
+	for k, v := range res.Tags {
+		if a.Tags == nil {
+			a.Tags = map[string]int{}
+		}
+		a.Tags[k] += v
 	}
 	a.Scenarios = append(a.Scenarios, map[string]any{
 		"name": res.Name, "executions": res.Executions, "states": res.States, "transitions": res.Transitions,
@@ -124,6 +131,17 @@ func (a *Agg) Finish(wantConcurrency bool) {
 	c["horizon_hits"] = a.Horizon
 	c["max_depth"] = a.MaxDepth
 	c["exhaustive"] = a.Exhaustive
+	if a.Tags != nil {
+		c["execution_tags"] = a.Tags
+	}
+}
+
+// RequireTag fails loudly (exit 2) if no complete execution carried the tag:
+// the scenarios did not reach the behaviour the oracle is about.
+func (a *Agg) RequireTag(tag string) {
+	if a.Tags[tag] == 0 && a.Run.NViolations() == 0 {
+		evid.Fatal("vacuous exploration: no execution reached %q", tag)
+	}
 }
 
 // RunScenarios explores n scenarios. With VERIF_PAR != "1" the scenarios are
